@@ -117,6 +117,16 @@ impl Scenario for Dens {
             let n = if big && matches!(spec.kind, UKind::OptF64 | UKind::OptF32) { n.max(m / 200) } else { n };
             let n = if sparse_huge { n.clamp(1, 4) } else { n };
             let mut items: Vec<u64> = (0..n).map(|_| *rng.pick(&pool)).collect();
+            if spec.kind.is_f32_dens() && m <= 16 && rng.chance(0.25) {
+                let ties = f32_tie_pairs(&spec);
+                if !ties.is_empty() {
+                    let (a, b) = *rng.pick(&ties);
+                    let pos = rng.usize_below(items.len() + 1);
+                    items.insert(pos, a);
+                    let pos = rng.usize_below(items.len() + 1);
+                    items.insert(pos, b);
+                }
+            }
             if rng.chance(0.5) {
                 items.sort();
             }
